@@ -269,6 +269,7 @@ class KernelInterp:
                 self.oob.append({"insn": insn.id, **o})
             self.n_subscripts += ev.n_subscripts
             self.n_masked_subscripts += ev.n_masked_subscripts
+            self.n_nonidentity_subscripts += ev.n_nonidentity
 
     def _store(self, insn: Any, ev: _Eval, env: dict[str, np.ndarray], mask: np.ndarray,
                val: Any, axes: list[str], extents: list[int]) -> None:
